@@ -7,9 +7,10 @@ A7 = 'A7: z3 / cvc5 answers are believed'
 
 PROPS = {
     'C06': dict(
-        modules=['contracts.dtw_matrix_py', 'contracts.dtw_matrix_c'],
+        modules=['contracts.dtw_matrix_py', 'contracts.dtw_matrix_c', 'contracts.dtw_mp_py', 'contracts.dtw_dispatch_py'],
         contracts=['dtw._distance_matrix_length', 'dtw._complete_block', 'dtw._distance_matrix_idxs',
                    'dtw.distance_matrix_python', 'dtw.distance_array_index', 'dtw.distances_array_to_matrix',
+                   'dtw.distance_matrix#serial', 'dtw.distance_matrix#square', 'dtw.distance_matrix#mp',
                    'dd_dtw.c::dtw_block_is_valid', 'dd_dtw.c::dtw_distances_length',
                    'dd_dtw.c::dtw_distances_ptrs', 'dd_dtw.c::dtw_distances_ndim_ptrs',
                    'dd_dtw.c::dtw_distances_matrix', 'dd_dtw.c::dtw_distances_ndim_matrix',
@@ -17,7 +18,9 @@ PROPS = {
         lemmas=['LenFullClosed', 'LenRectClosed', 'RowsBefore', 'RowsBeyond', 'LenFullBeyond', 'LenRowsNonneg'],
         level='proof',
         level_text='Unbounded proof obligations (z3/cvc5) generated from the real Python/C functions that compute block lengths, pair order and the condensed layout; postcondition = row-major rank of the selected pairs, for every block and every number of series.',
-        level_note='Trusted: dvc encoding of Python/C semantics (A1/A2), NumPy model (A3), solvers (A7). The per-pair value is the contract of the distance routine (C01/C02), not re-proved here.',
+        level_note='Trusted: dvc encoding of Python/C semantics (A1/A2), NumPy model (A3), solvers (A7). The per-pair value is the contract of the distance routine (C01/C02), not re-proved here. '
+                   'The public entry point dtw.distance_matrix is under contract for its pure-Python routes: serial compact (#serial), serial square form with and without only_triu (#square, on top of the '
+                   'contracts of distance_matrix_python and distances_array_to_matrix) and multiprocessing (#mp, C07); options go through the real DTWSettings. Its C routes (Cython wrappers) stay trusted (A5).',
         trusted_base=[PY_A1, A3_NUMPY, A7],
         assumptions=[PY_A1, A3_NUMPY, A7],
     ),
